@@ -431,6 +431,8 @@ class DiskCache(_CacheBase):
                 allow_cloudpickle=use_cloudpickle,
                 shared=lru_shared,
             )
+        # An existing directory might hold more files than `max_size` allows
+        self._evict_if_needed()
 
     def _get_file_path(self, key: Hashable) -> Path:
         key_hash = _pickle_key(key)
